@@ -50,7 +50,26 @@ def _install_tracer(fp):
         # a fault is addressed either by absolute invocation number or by "<owner>:<ordinal>"
         inj = _faults.get(self._verif_inv) or _faults.get(f"{owner}:{_percount[owner]}")
         self._verif_inj = inj
-        r = orig_opt(self)
+        if isinstance(inj, str) and inj.startswith("overrun:"):
+            # the backend's run is made to last <secs> longer than it does (it finishes its work, then lingers): nothing is
+            # injected into the statuses - whether the library's own custom timeout notices the overrun is what is observed
+            secs = float(inj.split(":")[1])
+            self._verif_inj = None
+            hc = type(self.solver)
+            inner = hc.optimize
+
+            def slow(s_, *a, **k):
+                r_ = inner(s_, *a, **k)
+                time.sleep(secs)
+                return r_
+            hc.optimize = slow
+            try:
+                r = orig_opt(self)
+            finally:
+                if "optimize" in hc.__dict__:
+                    delattr(hc, "optimize")
+        else:
+            r = orig_opt(self)
         if inj == "custom_timeout":
             self.did_timeout = True
         try:
@@ -150,6 +169,8 @@ def build_kwargs(inst, G):
         kw["optimization_options"] = dict(inst["opt"])
     so = {"threads": 1}
     so.update(inst.get("sopt", {}))
+    if "tl" in inst:          # time limit in seconds as a fraction [num, den] (records carry integers only)
+        so["time_limit"] = inst["tl"][0] / inst["tl"][1]
     if not inst.get("no_sopt"):
         kw["solver_options"] = so
     return kw
